@@ -20,6 +20,17 @@
 //	        as-is code cannot - it is let through at once (its own order), the run is marked
 //	        fw.Diverged and judged.  Lookups go through ungated RoutingTables of every node.
 //
+//	overlap the record's write and read path on the Redis-backed wirings step by step
+//	        (spec/RoutingSet.tla): a go-redis hook on every node's client parks the SET of a routing
+//	        record after redis.Storage.Set has encoded it and before it is sent (Enc / Send), and the
+//	        GET of a lookup after it was answered and before LookupWaitingTunnel decodes it
+//	        (LkRecv / LkDec), so registrations and lookups of different tunnels overlap in the
+//	        model's order (overlap.go).
+//
+// Gated mode also drives a node shutdown at the call sites (Shutdown: SessionManager.Close while
+// bridges exist, also while a record's Set is in flight); a lifecycle that has taken the bridge out
+// of the map and does not issue its removal is recorded as Removed{skipped} (Diverged, judged).
+//
 // Field values are compared in Go (fieldsEqual is logged as a boolean); spec/RoutingTrace.tla
 // judges the recorded lookups.
 package main
@@ -95,6 +106,8 @@ type step struct {
 	// where the mapping's target client has its control connection when the source end registers
 	// (site mode): same node | other node | none
 	Loc string `json:"loc,omitempty"`
+	// overlap mode (spec/RoutingSet.tla): the lookup process of an LkRecv / LkDec step
+	P string `json:"p,omitempty"`
 }
 
 type behaviour struct {
@@ -264,6 +277,8 @@ type world struct {
 	nReg     map[string]int
 	nLife    map[string]int // lifecycle removals of the tunnel id already let through
 	diverged string
+	skipped  map[string]string // model tunnel -> lifecycle process whose removal was not issued although the bridge left the map
+	closers  []func()          // overlap mode: storages / miniredis built by the driver itself
 }
 
 func (wd *world) Close() {
@@ -277,6 +292,9 @@ func (wd *world) Close() {
 		s.Close()
 	}
 	wd.w.Close()
+	for i := len(wd.closers) - 1; i >= 0; i-- {
+		wd.closers[i]()
+	}
 	wd.cancel()
 }
 
@@ -288,7 +306,17 @@ func newWorld(env *fw.Env, b fw.Behaviour, beh behaviour) (*world, error) {
 			nodes = append(nodes, "C")
 		}
 	}
-	w, err := wire.New(ctx, beh.Be, nodes)
+	var w *wire.Wiring
+	var err error
+	var closers []func()
+	var osch *sched.Sched
+	if beh.Mode == "overlap" {
+		osch = sched.New(false)
+		osch.Watchdog = 2 * time.Second
+		w, closers, err = overlapWiring(ctx, beh.Be, nodes, osch)
+	} else {
+		w, err = wire.New(ctx, beh.Be, nodes)
+	}
 	if err != nil {
 		cancel()
 		return nil, err
@@ -299,7 +327,11 @@ func newWorld(env *fw.Env, b fw.Behaviour, beh behaviour) (*world, error) {
 	}
 	wd := &world{beh: beh, w: w, nodes: nodes, rt: map[string]*session.TunnelRoutingTable{}, srv: map[string]*srvkit.Server{}, cloud: map[string]*cloudStub{},
 		addrs: map[string]string{}, ids: map[string]string{}, want: map[string]fields{}, mapOf: map[string]string{}, rng: rand.New(rand.NewSource(seed)), cancel: cancel,
-		onNode: map[string]string{}, regs: map[string]int{}, peers: map[string]*peer{}, tconn: map[string]*srvkit.Conn{}}
+		onNode: map[string]string{}, regs: map[string]int{}, peers: map[string]*peer{}, tconn: map[string]*srvkit.Conn{},
+		skipped: map[string]string{}, closers: closers}
+	if beh.Mode == "overlap" {
+		wd.sch = osch
+	}
 	if beh.Mode == "gated" {
 		wd.sch = sched.New(false)
 		wd.sch.Watchdog = 2 * time.Second
@@ -321,6 +353,9 @@ func newWorld(env *fw.Env, b fw.Behaviour, beh behaviour) (*world, error) {
 		}
 	}
 	wd.period = period
+	if beh.Mode == "overlap" {
+		wd.period = time.Hour // no clock in these behaviours: nothing lapses
+	}
 	if beh.PerMs > 0 {
 		wd.period = time.Duration(beh.PerMs) * time.Millisecond
 	}
@@ -488,9 +523,13 @@ func (wd *world) register(n, t, loc string) (fw.Event, *fw.Trace) {
 		if notified != nil {
 			// startSourceBridge notifies the local target client asynchronously (a command written to
 			// its control connection): let that write finish, the teardown must not cut into it
+			// (StreamProcessor.Close under a WritePacket in flight dereferences nil - C16's open finding
+			// NoPanic/stream:pendingWrite - and would take the whole driver process down; on a loaded
+			// machine the notifying goroutine may be scheduled late, so the wait is long.  A behaviour
+			// that waited long is discarded by the segment budget anyway.)
 			select {
 			case <-notified:
-			case <-time.After(time.Second):
+			case <-time.After(20 * time.Second):
 			}
 		}
 		return ev, nil
@@ -952,6 +991,7 @@ func (wd *world) gatedStep(s step, next *step) ([]fw.Event, time.Duration, *fw.T
 		wd.keyT[key] = t
 		wd.gmu.Unlock()
 		wd.regProc[t], wd.inFlight[t], wd.pendWant[t], wd.mapOf[t], wd.ids[t] = name, true, f, mid, f.TunnelID
+		wd.onNode[t] = n
 		// RegisterWaitingTunnel fixed ExpiresAt before issuing the Set: the waiting period runs from here
 		return []fw.Event{{"ev": "Create", "n": n, "t": t, "cls": wd.beh.Cls, "period": 1}}, 0, nil
 	case "Set":
@@ -973,6 +1013,7 @@ func (wd *world) gatedStep(s step, next *step) ([]fw.Event, time.Duration, *fw.T
 			return nil, 0, &fw.Trace{Status: fw.DriverError, Note: "gated: no bridge for " + t}
 		}
 		br.Close()
+		delete(wd.onNode, t)
 		evs := []fw.Event{{"ev": "TunnelEnd", "n": n, "t": t}}
 		var waited time.Duration
 		if wd.inFlight[t] && !(next != nil && next.A == "Removed" && next.T == t) {
@@ -993,10 +1034,40 @@ func (wd *world) gatedStep(s step, next *step) ([]fw.Event, time.Duration, *fw.T
 		if wd.inFlight[t] {
 			limit = 150 * time.Millisecond
 		}
-		if !wd.waitLife(t, limit) {
-			return nil, 0, &fw.Trace{Status: fw.Unrealisable, Note: "the lifecycle's removal of " + t + "'s record has not been issued (write in flight: " + fmt.Sprint(wd.inFlight[t]) + ")"}
+		var goneSince time.Time
+		for !wd.lifeParked(t) {
+			if !wd.inFlight[t] && sm().GetTunnelBridgeByMappingID(wd.mapOf[t], 0) == nil {
+				// the lifecycle has taken the bridge out of the map: its next statement is the removal
+				if goneSince.IsZero() {
+					goneSince = time.Now()
+				} else if time.Since(goneSince) > 40*time.Millisecond {
+					// no removal of the record was issued.  Recorded as the lifecycle's (empty) removal
+					// step; whether it really never comes is checked again at the end of the behaviour.
+					wd.skipped[t] = "life:" + t
+					return []fw.Event{{"ev": "Removed", "n": n, "t": t, "skipped": true}}, time.Since(t0), nil
+				}
+			}
+			if time.Since(t0) > limit {
+				return nil, 0, &fw.Trace{Status: fw.Unrealisable, Note: "the lifecycle's removal of " + t + "'s record has not been issued (write in flight: " + fmt.Sprint(wd.inFlight[t]) + ")"}
+			}
+			time.Sleep(200 * time.Microsecond)
 		}
 		return []fw.Event{wd.letRemove(n, t)}, time.Since(t0), nil
+	case "Shutdown":
+		// the node's SessionManager is closed: its context ends, every bridge on it ends with it
+		var mine []string
+		for _, x := range []string{"t1", "t2", "t3"} {
+			if wd.onNode[x] == n {
+				mine = append(mine, x)
+			}
+		}
+		sm().Close()
+		var evs []fw.Event
+		for _, x := range mine {
+			delete(wd.onNode, x)
+			evs = append(evs, fw.Event{"ev": "TunnelEnd", "n": n, "t": x, "why": "shutdown"})
+		}
+		return evs, 0, nil
 	}
 	return nil, 0, &fw.Trace{Status: fw.DriverError, Note: "gated: unknown step " + s.A}
 }
@@ -1015,6 +1086,9 @@ func drive(env *fw.Env, b fw.Behaviour) *fw.Trace {
 	t.Events = append(t.Events, fw.Event{"ev": "Cfg", "be": beh.Be, "mode": beh.Mode})
 	if beh.Mode == "race" {
 		return wd.raceRounds(env, t)
+	}
+	if beh.Mode == "overlap" {
+		return wd.driveOverlap(t)
 	}
 	seg := time.Now()
 	var waitedSeg time.Duration
@@ -1036,7 +1110,13 @@ func drive(env *fw.Env, b fw.Behaviour) *fw.Trace {
 			t.Events = append(t.Events, wd.early(s.N, map[bool]string{true: s.T}[s.A == "Removed"])...)
 		}
 		switch s.A {
-		case "Create", "Set", "End", "Removed":
+		case "LkRecv", "LkDec", "Enc", "Send":
+			return &fw.Trace{Status: fw.DriverError, Note: "write-path step outside overlap mode"}
+		case "Create", "Set", "End", "Removed", "Shutdown":
+			if s.A == "Shutdown" && beh.Mode != "gated" {
+				t.Events = append(t.Events, wd.shutdown(s.N)...)
+				continue
+			}
 			if beh.Mode != "gated" {
 				return &fw.Trace{Status: fw.DriverError, Note: "call-site step outside gated mode"}
 			}
@@ -1081,9 +1161,6 @@ func drive(env *fw.Env, b fw.Behaviour) *fw.Trace {
 			ev = wd.lookup(s.N, s.T)
 		case "Remove":
 			ev, bad = wd.remove(s.N, s.T)
-		case "Shutdown":
-			t.Events = append(t.Events, wd.shutdown(s.N)...)
-			continue
 		case "Arrive":
 			ev, bad = wd.arrive(s.N, s.T)
 		case "TargetGone":
@@ -1098,6 +1175,19 @@ func drive(env *fw.Env, b fw.Behaviour) *fw.Trace {
 	}
 	if tr := over(); tr != nil {
 		return tr
+	}
+	for tn, base := range wd.skipped {
+		// a removal that was merely late (a descheduled goroutine) is not a verdict
+		deadline := time.Now().Add(2 * time.Second)
+		for time.Now().Before(deadline) {
+			for _, proc := range wd.sch.Procs() {
+				if st, _ := wd.sch.State(proc); st == sched.Parked && strings.HasPrefix(proc, base+"#") {
+					return &fw.Trace{Status: fw.Inconclusive, Note: "a lifecycle's removal of " + tn + "'s record arrived late"}
+				}
+			}
+			time.Sleep(time.Millisecond)
+		}
+		wd.diverged = "the bridge lifecycle of " + tn + " ended without issuing the removal of its routing record"
 	}
 	if wd.diverged != "" {
 		t.Status, t.Note = fw.Diverged, wd.diverged
@@ -1141,6 +1231,25 @@ func genJob(name, nodes, tunnels string, maxReg, maxClock, maxHist int, mode str
 		"MODE": mode, "LF": lf, "ONLY": only, "TTL": ttl}}
 }
 
+// splitHonourContext: the context-honouring design at the call sites (shutdown while bridges exist,
+// also while a record's Set is in flight): its only route to a violation is "notRemoved"
+func splitHonourContext(name string) fw.TLCJob {
+	j := mcJob(name, `{"A", "B"}`, `{"t1", "t2"}`, 1, 2, "split", false)
+	j.Consts["HCTX"], j.Consts["INVS"], j.Consts["SHAPES"] = "TRUE", "LookupExactOrDev LookupGoneOrDev", `{"jsonString"}`
+	return j
+}
+
+// setJob: the record's write / read path as-is (spec/RoutingSet.tla)
+func setJob(name, tunnels, lookers string) fw.TLCJob {
+	return fw.TLCJob{Name: name, Module: "RoutingSet", Cfg: "RoutingSet_mc.cfg", Workers: 2, Consts: map[string]string{
+		"TUNNELS": tunnels, "LOOKERS": lookers, "POOLENC": "FALSE", "POOLDEC": "FALSE", "INVS": "StoredOwn LookupOwn Registered NoDev"}}
+}
+
+func setGenJob(name, tunnels, lookers string, maxHist int) fw.TLCJob {
+	return fw.TLCJob{Name: name, Module: "RoutingSet", Cfg: "RoutingSet_gen.cfg", Workers: 1, Consts: map[string]string{
+		"TUNNELS": tunnels, "LOOKERS": lookers, "MAXHIST": fmt.Sprint(maxHist)}}
+}
+
 func arriveJob(name, nodes, tunnels string) fw.TLCJob {
 	j := mcJob(name, nodes, tunnels, 1, 2, "arrive", false)
 	j.Consts["SHAPES"] = `{"jsonString"}`
@@ -1182,6 +1291,8 @@ func main() {
 				altDesign("mc:honour-context", "HCTX"),
 				altDesign("mc:reject-seen-ids", "REJSEEN"),
 				arriveJob("mc:arrive:3n1t", `{"A", "B", "C"}`, `{"t1"}`),
+				splitHonourContext("mc:split:honour-context"),
+				setJob("mc:set:3t2l", `{"t1", "t2", "t3"}`, `{"l1", "l2"}`),
 			}
 			if env.Tier == "thorough" {
 				jobs = append(jobs,
@@ -1203,6 +1314,8 @@ func main() {
 					genJob(altSrc, ab, t2, 2, 2, 9, "split", true, "dev"),
 					genJob("gen:ttl2", ab, t2, 2, 3, 9, "atomic", false, "all"),
 					genJob("gen:arrive", `{"A", "B", "C"}`, t1, 2, 2, 9, "arrive", false, "all"),
+					setGenJob("gen:set:3t", `{"t1", "t2", "t3"}`, `{}`, 9),
+					setGenJob("gen:set:3t2l", `{"t1", "t2", "t3"}`, `{"l1", "l2"}`, 12),
 				}
 			}
 			return []fw.TLCJob{
@@ -1211,6 +1324,8 @@ func main() {
 				genJob(altSrc, ab, t1, 2, 2, 9, "split", true, "dev"),
 				genJob("gen:ttl2", ab, t1, 2, 3, 8, "atomic", false, "all"),
 				genJob("gen:arrive", ab, t1, 2, 1, 9, "arrive", false, "all"),
+				setGenJob("gen:set:3t", `{"t1", "t2", "t3"}`, `{}`, 9),
+				setGenJob("gen:set:2t2l", t2, `{"l1", "l2"}`, 10),
 			}
 		},
 		MaxBehSrc: func(env *fw.Env, src string) int {
@@ -1227,6 +1342,10 @@ func main() {
 				return 60
 			case src == altSrc:
 				return 54
+			case src == "gen:set:3t":
+				return 120
+			case src == "gen:set:2t2l":
+				return 60
 			}
 			return 150
 		},
@@ -1240,6 +1359,20 @@ func main() {
 				return nil
 			}
 			seenBeh[src+key] = true
+			if strings.HasPrefix(src, "gen:set") {
+				// the record's write / read path: Redis-backed wirings, node assignment and value class rotating
+				var out []json.RawMessage
+				k := expandN
+				expandN++
+				for i, be := range []string{"redis", "tiered"} {
+					cls := classes[(k+2*i)%len(classes)]
+					if cls == "big" && k%4 != 0 { // the 64 KiB class now and then only (cost)
+						cls = "unicode"
+					}
+					out = append(out, fw.MustJSON(behaviour{Be: be, Mode: "overlap", Cls: cls, Steps: steps, Rep: k + i}))
+				}
+				return out
+			}
 			look := false
 			for _, s := range steps {
 				look = look || s.A == "Lookup" || s.A == "Arrive"
@@ -1348,16 +1481,18 @@ func main() {
 		NonTrivial: func(t *fw.Trace) bool {
 			reg, look := false, false
 			for _, e := range t.Events {
-				reg = reg || e["ev"] == "Register"
+				reg = reg || e["ev"] == "Register" || e["ev"] == "Set"
 				look = look || (e["ev"] == "Lookup" && reg)
 			}
 			return look
 		},
-		Rule: "call-site steps (bridge created / record set / tunnel ends / record removed, the write gated) as a second transition cover on every wiring, plus the schedules of the lifecycle-first design that end in a late write; and: one behaviour per transition (state, event) of the bounded Routing state graph (shortest history to the state + the event), each replayed on the memory, Redis and tiered wirings with a rotating value class, plus one realisation through StartServerTunnel / bridge end; non-trivial = a lookup after a registration",
+		Rule: "the record's write / read path on the Redis-backed wirings (spec/RoutingSet.tla: SET encoded / sent, GET answered / decoded, transition cover over 3 tunnels and 2 lookups, parked by a go-redis hook); call-site steps (bridge created / record set / tunnel ends / record removed, the write gated) as a second transition cover on every wiring, plus the schedules of the lifecycle-first design that end in a late write; and: one behaviour per transition (state, event) of the bounded Routing state graph (shortest history to the state + the event), each replayed on the memory, Redis and tiered wirings with a rotating value class, plus one realisation through StartServerTunnel / bridge end; non-trivial = a lookup after a registration",
 		Assumptions: []string{
 			"waiting period 400 ms = 1 model tick; a tick sleeps 600 ms; behaviours whose register..lookup segment took more than 130 ms are discarded as inconclusive",
 			"miniredis stands in for Redis; its virtual clock is advanced together with the real sleep",
 			"gated mode: the SessionManager's RoutingTable writes and deletes routing records through a scheduler gate in front of the node's storage; the tunnel is ended by closing the real bridge; a removal issued while the write is parked is let through first (Diverged, judged)",
+			"gated mode, node shutdown: SessionManager.Close of the source node while bridges exist (also while a record's Set is parked); a lifecycle that has taken the bridge out of the map and issues no removal within 40 ms is recorded as Removed{skipped} and judged (Diverged) - unless the removal shows up within 2 s after the behaviour (then inconclusive)",
+			"overlap mode: Redis-backed wirings built by the driver as drivers/c08/wire does, with a go-redis hook on every node's client: the SET of a routing record issued by a scheduled registration is parked before it is written to a connection, the GET of a scheduled lookup after its reply arrived; nodes of the steps are chosen by the driver (rotating); no clock (waiting period 1 h)",
 			"site mode places the mapping's target client (a real first-connect control connection) on the source node, on another node or nowhere before the source end registers",
 			"waiting periods of 1.5 s and 2.5 s run in virtual time on the Redis-backed wirings (miniredis fast-forward to 100 ms before the end, no sleep): the wall-clock ExpiresAt does not lapse there, only the store's own key lifetime is exercised",
 			"re-registration races (memory wiring): time-boxed rounds of three lookups and one re-registration of an id whose previous record has lapsed unswept, released by a spin barrier; only the lookups made after all four returned are judged",
